@@ -290,7 +290,7 @@ def main():
     with cf.ThreadPoolExecutor(max_workers=min(8, len(units))) as ex:
         results = list(ex.map(analyse_unit, list(units)))
     extra = []
-    if a.tier == "thorough" or spec.get("always_extra"):
+    if a.tier == "thorough" or spec.get("extra"):
         import extra_checks
         extra = extra_checks.run(a.property, spec, a.tier)
     return report(a.property, spec, a.tier, results, extra, t0)
